@@ -470,3 +470,101 @@ def tv_compare_hook(mine, theirs):
         a.pop("_op", None)
         a.pop("_rhs", None)
     return mine, theirs
+
+
+# ---------------------------------------------------------------------------------------------
+# real-build cross-check on medium continua: independent MILP (scipy / HiGHS) over ALL tuples, no pruning
+# ---------------------------------------------------------------------------------------------
+def medium_cases(seed=0):
+    import random
+    rnd = random.Random(1000 + seed)
+    cases = []
+    for shape in ((5, 5, 4), (4, 4, 3, 3), (9, 8), (3, 3, 3, 2, 2), (6, 0, 5)):
+        units = []
+        for a, nu in enumerate(shape):
+            t = rnd.uniform(0, 3)
+            for j in range(nu):
+                dur = rnd.choice([0.5, 1.0, 2.5, 6.0])
+                gap = rnd.choice([-2.0, -0.5, 0.0, 0.3, 1.5])       # negative gaps: overlapping and nested units
+                s = max(0.0, t + gap)
+                units.append([ANN[a], repr(s), repr(s + dur), rnd.choice(["x", "y", "z", None] if a % 2 == 0 else ["x", "y"])])
+                t = s + dur
+        cases.append(dict(shape=list(shape), units=units, annotators=[ANN[a] for a in range(len(shape))],
+                          alpha=rnd.choice([0, 1, 3]), beta=rnd.choice([0, 1, 2]), de=rnd.choice([0.5, 1, 2.5]),
+                          dissim=rnd.choice(["combined", "positional"])))
+    return cases
+
+
+def real_medium_check(case, mode="best", backends=("cbc",)):
+    """best / soft alignment of a medium continuum on the real build against an independent MILP over all tuples"""
+    import itertools
+    import sys
+    import numpy as np
+    import pygamma_agreement as pa
+    from pyannote.core import Segment
+    from scipy.optimize import milp, LinearConstraint, Bounds
+    bad = []
+    for seed_case in medium_cases(case.get("seed", 0)):
+        c = pa.Continuum()
+        for a in seed_case["annotators"]:
+            c.add_annotator(a)
+        for a, s, e, lab in seed_case["units"]:
+            c.add(a, Segment(float(s), float(e)), lab)
+        al, be, de = float(seed_case["alpha"]), float(seed_case["beta"]), float(seed_case["de"])
+        if al == 0 and be == 0:
+            al = 1.0
+        D = pa.PositionalSporadicDissimilarity(delta_empty=de) if seed_case["dissim"] == "positional" else \
+            pa.CombinedCategoricalDissimilarity(alpha=al, beta=be, delta_empty=de)
+        names = list(c.annotators)
+        ul = [list(c._annotations[a]) for a in names]
+        sizes = [len(u) for u in ul]
+        n = len(sizes)
+        c2n = n * (n - 1) // 2
+
+        def d(u, v):
+            su, eu, sv, ev = (float(np.float32(x)) for x in (u.segment.start, u.segment.end, v.segment.start, v.segment.end))
+            r = (abs(su - sv) + abs(eu - ev)) / ((eu - su) + (ev - sv))
+            p = r * r * de
+            if seed_case["dissim"] == "positional":
+                return p
+            return al * p + be * (de if u.annotation != v.annotation else 0.0)
+        tuples, costs = [], []
+        for t in itertools.product(*[range(s + 1) for s in sizes]):
+            if all(t[a] == sizes[a] for a in range(n)):
+                continue
+            tot = 0.0
+            for a in range(n):
+                for b in range(a):
+                    tot += de if (t[a] == sizes[a] or t[b] == sizes[b]) else d(ul[a][t[a]], ul[b][t[b]])
+            tuples.append(t)
+            costs.append(tot / c2n)
+        offs = np.cumsum([0] + sizes)
+        A = np.zeros((int(offs[-1]), len(tuples)))
+        for k, t in enumerate(tuples):
+            for a in range(n):
+                if t[a] != sizes[a]:
+                    A[offs[a] + t[a], k] = 1
+        lo, hi = (1, np.inf) if mode == "soft" else (1, 1)
+        res = milp(c=np.array(costs), constraints=LinearConstraint(A, lo, hi), integrality=np.ones(len(tuples)), bounds=Bounds(0, 1))
+        want = float(res.fun) / (sum(sizes) / n)
+        for backend in backends:
+            if backend == "glpk_import":
+                sys.modules["cylp"] = None
+            try:
+                R = c.get_best_soft_alignment(D) if mode == "soft" else c.get_best_alignment(D)
+            except Exception as ex:     # noqa: BLE001
+                bad.append(f"shape {seed_case['shape']} {seed_case['dissim']} [{backend}]: raised {ex!r}"[:200])
+                continue
+            finally:
+                if backend == "glpk_import":
+                    sys.modules.pop("cylp", None)
+            got = float(R.disorder)
+            if abs(got - want) > 5e-5 * max(1.0, abs(want)):
+                bad.append(f"shape {seed_case['shape']} {seed_case['dissim']} alpha={al} beta={be} delta={de} [{backend}]: {mode} disorder {got} != independent optimum {want}")
+            sb = real_check_alignment(None, c, R, mode == "soft")
+            if sb:
+                bad.append(f"shape {seed_case['shape']} [{backend}]: " + "; ".join(sb[:2]))
+            rec = float(R.compute_disorder(D))
+            if abs(rec - got) > 5e-5 * max(1.0, abs(got)):
+                bad.append(f"shape {seed_case['shape']} [{backend}]: carried disorder {got} != recomputed {rec}")
+    return dict(reproduced=bool(bad), detail="; ".join(bad[:3])[:700])
